@@ -500,6 +500,45 @@ class Enumerator:
             r = self.x_OptionCombinator(e)
             if r is not None:
                 return r
+        if self.combinators and k == "MethodCall" and e.get("name") in ("map", "and_then", "map_err") \
+                and "Result<" in str(e.get("recv_ty", "")) and "Option<" not in str(e.get("recv_ty", "")).split("Result<")[0] \
+                and len(e.get("args") or []) == 1 and peel(e["args"][0]).get("k") == "Closure" and len(peel(e["args"][0]).get("params") or []) == 1:
+            # `res.map(|p| b)` is `match res { Ok(p) => Ok(b), Err(e) => Err(e) }` (and_then / map_err alike)
+            res = []
+            clo = peel(e["args"][0])
+            name = e["name"]
+            hit, other = ("Ok", "Err") if name != "map_err" else ("Err", "Ok")
+            for ro in self.expr(e["recv"]):
+                if ro.exit != "fall":
+                    res.append(ro)
+                    continue
+                X = ro.val
+                pat = "%s(%s)" % (hit, pat_canon(clo["params"][0], self.ren))
+                for o in self.expr(clo["body"]):
+                    self._budget()
+                    if o.exit in ("fall", "return"):
+                        val = o.val if name == "and_then" else "%s(%s)" % (hit, o.val)
+                        res.append(PathOut(ro.events + [Ev("letcond", pat, X, True, node=e)] + o.events, "fall", val, None, e))
+                    else:
+                        res.append(PathOut(ro.events + [Ev("letcond", pat, X, True, node=e)] + o.events, o.exit, o.val, o.label, o.valnode))
+                res.append(PathOut(ro.events + [Ev("letcond", pat, X, False, node=e)], "fall", "%s(%s)" % (other, re.sub(r"\W+", "_", "%s_%s" % (X, other.lower()))), None, e))
+            return res
+        if self.combinators and k == "MethodCall" and e.get("name") == "then" and str(e.get("recv_ty", "")).lstrip("&") == "bool" \
+                and len(e.get("args") or []) == 1 and peel(e["args"][0]).get("k") == "Closure":
+            # `cond.then(|| body)` is `if cond { Some(body) } else { None }`
+            res = []
+            clo = peel(e["args"][0])
+            for evs, truth in self.cond_alts(e["recv"]):
+                if not truth:
+                    res.append(PathOut(evs, "fall", "None", None, e))
+                    continue
+                for o in self.expr(clo["body"]):
+                    self._budget()
+                    if o.exit in ("fall", "return"):
+                        res.append(PathOut(evs + o.events, "fall", "Some(%s)" % o.val, None, e))
+                    else:
+                        res.append(PathOut(evs + o.events, o.exit, o.val, o.label, o.valnode))
+            return res
         m = getattr(self, "x_" + k, None)
         if m is not None:
             return m(e)
@@ -508,6 +547,9 @@ class Enumerator:
         def _has_branch(x, depth=0):
             x = peel(x)
             if x.get("k") in ("If", "Match"):
+                return True
+            if self.combinators and x.get("k") == "MethodCall" and x.get("name") in ("map", "and_then", "map_err", "map_or", "map_or_else", "or_else", "then") \
+                    and any(peel(a_).get("k") == "Closure" for a_ in x.get("args") or []):
                 return True
             if depth > 3 or x.get("k") not in ("Call", "MethodCall", "Tup"):
                 return False
@@ -731,6 +773,12 @@ class Enumerator:
             if o.exit != "fall":
                 res.append(o)
             else:
+                r_ = peel(e["r"])
+                if r_.get("k") == "Binary" and r_.get("op") in ("Add", "Mul") and lhs in (self.c(r_["l"]), self.c(r_["r"])) and re.match(r"^\w+$", lhs):
+                    # `x = x + e` is `x += e`
+                    other = r_["r"] if self.c(r_["l"]) == lhs else r_["l"]
+                    res.append(PathOut(o.events + [Ev("assign", lhs, OPSYM.get(r_["op"], r_["op"]) + "=", self.c(other), node=e)], "fall", ""))
+                    continue
                 res.append(PathOut(o.events + [Ev("assign", lhs, "=", o.val, node=e)], "fall", ""))
         return res
 
@@ -809,26 +857,37 @@ class Enumerator:
             if so.exit != "fall":
                 res.append(so)
                 continue
-            carry = [[]]      # events of failed guards of earlier arms that lead to this arm
-            for arm in e["arms"]:
+            carry = [([], frozenset())]      # (events of failed guards of earlier arms that lead to this arm, those arms)
+            earlier = []      # patterns of earlier guard-less arms: known not to match when this arm is reached
+            guarded = []      # (index, pattern) of earlier guarded arms
+            for ai, arm in enumerate(e["arms"]):
                 p = pat_canon(arm["pat"], self.ren)
                 new_carry = []
-                for c in carry:
-                    base = so.events + c + [Ev("arm", so.val, p, node=arm)]
+                prev_pats = tuple(earlier)
+                if arm.get("guard") is None:
+                    earlier.append(p)
+                # an earlier guarded arm with the same pattern was tried first: this arm is reached only past its guard
+                need = frozenset(i for i, gp in guarded if gp == p or re.match(r"^(_|[a-z_][a-z_0-9]*)$", gp))
+                for c, failed in carry:
+                    if not need <= failed:
+                        continue
+                    base = so.events + c + [Ev("arm", so.val, p, c=prev_pats, node=arm)]
                     alts = [(base, True)]
                     if arm.get("guard") is not None:
                         alts = [(base + evs, t) for evs, t in self.cond_alts(arm["guard"])]
                     for evs, t in alts:
                         if not t:
                             # the guard failed: later arms are tried with these conditions known
-                            new_carry.append(evs[len(so.events):-0 or None][:])
+                            new_carry.append((evs[len(so.events):-0 or None][:], failed | {ai}))
                             continue
                         for o in self.expr(arm["body"]):
                             self._budget()
                             res.append(PathOut(evs + o.events, o.exit, o.val, o.label, o.valnode))
+                if arm.get("guard") is not None:
+                    guarded.append((ai, p))
                 # drop the `arm` marker of the failed arm from the carried prefix but keep its guard conditions
-                for nc in new_carry:
-                    carry.append([ev for ev in nc if ev.kind != "arm"])
+                for nc, nf in new_carry:
+                    carry.append(([ev for ev in nc if ev.kind != "arm"], nf))
         return res
 
     def x_Block(self, e):
@@ -966,7 +1025,12 @@ def subst_lets(text, lets, rounds=4):
             if not re.match(r"^[A-Za-z_][A-Za-z_0-9]*$", k) or v is None or k == v:
                 continue
             # not a field name (`x.k`), but the end of a range (`a..k`) is a use
-            t2 = re.sub(r"(?<![A-Za-z_0-9])(?:(?<!\.)|(?<=\.\.))%s(?![A-Za-z_0-9(])" % re.escape(k), lambda m: v, text)
+            def rep(m, text=text, v=v):
+                # a struct-literal field label (`{k:..` / `,k:..`) is not a use
+                if m.start() > 0 and text[m.start() - 1] in "{," and text[m.end():m.end() + 1] == ":" and text[m.end():m.end() + 2] != "::":
+                    return m.group(0)
+                return v
+            t2 = re.sub(r"(?<![A-Za-z_0-9])(?:(?<!\.)|(?<=\.\.))%s(?![A-Za-z_0-9(])" % re.escape(k), rep, text)
             if t2 != text:
                 text = t2
                 changed = True
